@@ -39,6 +39,16 @@ class FStream:
         return out
 
 
+class BAStream(FStream):
+    """the same file double, but read()/readline() hand out bytearray objects (io.RawIOBase-like wrappers and some serial shims do)"""
+
+    def read(self, n):
+        return bytearray(super().read(n))
+
+    def readline(self):
+        return bytearray(super().readline())
+
+
 class FakeSocket(socket.socket):
     """socket.socket subclass whose recv() replays an event list: bytes = data, None = timeout / OSError"""
 
@@ -137,7 +147,20 @@ def add_file_case(em, p, data, sched, cfg, k, desc):
            size=len(data), spec=["reader_file", data.hex(), [(-1 if d is None else d) for d in sched], list(cfg), k])
     for h, r in res:
         em.count("result." + r[0])
+    FILE_TICK[0] += 1
+    if FILE_TICK[0] % 4 == 0:
+        em.direct_evaluations += 1
+        st2 = BAStream(data, sched)
+        res2, _ = run_reader(p, st2, cfg, k)
+        if ser_results(res2) != ser_results(res) or st2.pos != st.pos:
+            em.violation("the reader's results differ when the stream hands out bytearray objects instead of bytes (same content)",
+                         {"stream": data.hex(), "schedule": [(-1 if d is None else d) for d in sched], "cfg": list(cfg), "reads": k},
+                         {"bytes": readable(res)[:6], "bytearray": readable(res2)[:6]})
+        em.count("stream_types_checked")
     return res, st
+
+
+FILE_TICK = [0]
 
 
 def add_sock_case(em, p, events, cfg, k, desc, chunked=False, bufsize=4096):
@@ -175,6 +198,7 @@ def add_sock_case(em, p, events, cfg, k, desc, chunked=False, bufsize=4096):
 
 # ------------------------------------------------------------------------------------------------- stream generators
 built_ok = set()   # payloads laid out by the reference encoder for a defined type: they must parse
+derived = set()    # payloads derived from others by bit surgery (same-checksum siblings, nested frames): whether a defined type still decodes is asked of the constructor
 
 
 def valid_payloads(tabs, rng, n):
@@ -231,6 +255,13 @@ def mixed_stream(tabs, rng, nitems, kinds, p_nmea_hdr):
         if k == "frame":
             pl = pays[i]
             items.append(("frame", gen.frame(pl), pl))
+        elif k == "msm":
+            b_ = gen.build(tabs, rng.choice(list(tabs.M)), rng, maskmode=rng.choice([None, None, "last", ("shape", 3, 2, 4, 1)]))
+            if b_ is not None and len(b_.payload) <= 700:
+                built_ok.add(b_.payload)
+                items.append(("frame", gen.frame(b_.payload), b_.payload))
+            else:
+                items.append(("frame", gen.frame(pays[i]), pays[i]))
         elif k == "zero":
             items.append(("zero", gen.frame(b""), None))
         elif k == "damaged":
@@ -262,6 +293,19 @@ def mixed_stream(tabs, rng, nitems, kinds, p_nmea_hdr):
                 items.append(("frame", gen.frame(pl), pl))
             else:
                 items.append(("frame", gen.frame(pays[i]), pays[i]))
+        elif k == "collide":
+            prev = [x for x in items if x[0] == "frame" and len(x[1]) >= 14]
+            if prev:                              # a different frame with the same number, length AND checksum bytes as the previous one
+                vs = gen.collide_variants(prev[-1][1])
+                v = rng.choice(vs)
+                derived.add(v[3:-3])
+                items.append(("frame", v, v[3:-3]))
+            else:
+                items.append(("frame", gen.frame(pays[i]), pays[i]))
+        elif k == "nested":
+            w_, pl = rng.choice(gen.nested_payloads(rng, pays[i][:300]))
+            derived.add(pl)
+            items.append(("frame", gen.frame(pl), pl))
         elif k == "syncnoise":
             items.append(("syncnoise", gen.noise(rng, rng.randrange(1, 10), inert=False), None))
         elif k == "falsesync":
@@ -315,7 +359,7 @@ DEEP = 1100       # above CPython's default recursion limit
 
 
 WELLFORMED = ["frame", "frame", "frame", "zero", "nmea", "nmea_lf", "ubx", "ubx_big", "noise"]
-WELLFORMED = WELLFORMED + ["zeros", "repeat", "samelen"]
+WELLFORMED = WELLFORMED + ["zeros", "repeat", "samelen", "collide", "nested"]
 HOSTILE = WELLFORMED + ["damaged", "syncnoise", "falsesync", "reserved", "nmea_unlisted", "zeros"]
 
 
@@ -472,6 +516,17 @@ def main():
                    ("nmea", gen.nmea_sentence(rng), None), ("frame", gen.frame(pls[2]), pls[2])]
             special.append((b"".join(x[1] for x in its), its))
             em.count("ubx.length.%d" % ulen)
+        # frames of defined types whose repeat counters are large (99, 100, 101, the field maximum): three-digit group indices
+        bb = gen.bigcount_builds(tabs, rng)
+        for chunk in [bb[i:i + 12] for i in range(0, len(bb), 12)][: (8 if thorough else 3)]:
+            its = []
+            for b_ in chunk:
+                built_ok.add(b_.payload)
+                its.append(("frame", gen.frame(b_.payload), b_.payload))
+                if rng.random() < 0.4:
+                    its.append(("nmea", gen.nmea_sentence(rng), None))
+            special.append((b"".join(x[1] for x in its), its))
+            em.count("bigcount.streams")
         # more than a thousand consecutive foreign or filler items between two valid frames
         for kind in (("nmea", "ubx", "zero", "unknown") if thorough else ("nmea", "zero", "unknown")):
             special.append(deep_run(tabs, rng, kind, DEEP))
@@ -498,7 +553,7 @@ def main():
                 def must_parse(pl):
                     mid = pl[0] << 4 | pl[1] >> 4
                     ident = "%d_%03d" % (mid, (pl[1] & 1) << 7 | pl[2] >> 1) if mid == 4076 and len(pl) > 2 else str(mid)
-                    return ident not in tabs.ALL or pl in built_ok
+                    return ident not in tabs.ALL or pl in built_ok or (pl in derived and constructs(pl))
                 want = [x[1] for x in items if x[0] == "frame" and must_parse(x[2])]
                 if got != want:
                     em.violation("C02: frames returned differ from the valid frames of the stream (%s)" % mk,
@@ -595,15 +650,37 @@ def main():
                     self.append(err)
             coll = Collector()
             plain = []
-            for hobj, count in ((coll, lambda: len(coll)), (plain.append, lambda: len(plain))):
+            # ... under both states of the library's logger (muted by the application / enabled): the handler is the user's, not the logger's
+            lgs = [logging.getLogger("pyrtcm"), logging.getLogger("pyrtcm.rtcmreader")]
+            saved = [(l_.level, l_.propagate, l_.disabled) for l_ in lgs]
+            nh = logging.NullHandler()
+            for logstate in ("muted", "enabled", "disabled-globally"):
+                del coll[:]
+                del plain[:]
                 try:
-                    got = [raw for raw, _ in p.RTCMReader(io.BytesIO(data), quitonerror=1, errorhandler=hobj)]
-                except Exception as e:  # noqa
-                    got = repr(e)
-                em.direct_evaluations += 1
-                if got != good or count() != nd:
-                    em.violation("C05: log mode with a %s as handler: %s frames, handler called %d times for %d damaged frames" % (
-                        type(hobj).__name__, len(got) if isinstance(got, list) else got, count(), nd), {"stream": data.hex(), "damaged": dmg}, {})
+                    if logstate == "enabled":
+                        for l_ in lgs:
+                            l_.setLevel(logging.DEBUG)
+                            l_.propagate = False
+                            l_.addHandler(nh)
+                    elif logstate == "disabled-globally":
+                        logging.disable(logging.CRITICAL)
+                    for hobj, count in ((coll, lambda: len(coll)), (plain.append, lambda: len(plain))):
+                        try:
+                            got = [raw for raw, _ in p.RTCMReader(io.BytesIO(data), quitonerror=1, errorhandler=hobj)]
+                        except Exception as e:  # noqa
+                            got = repr(e)
+                        em.direct_evaluations += 1
+                        if got != good or count() != nd:
+                            em.violation("C05: log mode with a %s as handler (library logger %s): %s frames, handler called %d times for %d damaged frames" % (
+                                type(hobj).__name__, logstate, len(got) if isinstance(got, list) else got, count(), nd), {"stream": data.hex(), "damaged": dmg, "logger": logstate}, {})
+                finally:
+                    logging.disable(logging.NOTSET)
+                    for l_, (lv, pr, ds) in zip(lgs, saved):
+                        l_.removeHandler(nh)
+                        l_.setLevel(lv)
+                        l_.propagate = pr
+                        l_.disabled = ds
             # log mode through the logger (no handler object): one log record per damaged frame
             rec = []
 
@@ -629,9 +706,10 @@ def main():
     elif prop == "C17":
         for it in range(50 if thorough else 14):
             n = rng.randrange(2, 10)
-            data, items = mixed_stream(tabs, rng, n, ["frame", "frame", "nmea", "ubx", "noise", "zero"], None)
+            data, items = mixed_stream(tabs, rng, n, ["frame", "frame", "msm", "nmea", "ubx", "noise", "zero"], None)
             if len(data) > 8000:
                 continue
+            lab_ = 1 + it % 2          # the label option must keep its effect whatever the other options are
             # wrong checksum bytes on some frames
             bad = bytearray(data)
             off = 0
@@ -658,7 +736,7 @@ def main():
                 for pa in (True, False):
                     for q in (0, 1):
                         for src, nm in ((data, "good"), (bad, "badcrc")):
-                            cfg = (v, q, 1, pa)
+                            cfg = (v, q, lab_, pa)
                             res, st = add_file_case(em, p, src, [], cfg, len(items) + 2, "options validate=%d parsed=%s mode=%d on %s stream" % (v, pa, q, nm))
                             out[(v, pa, q, nm)] = (res, st.pos)
             em.direct_evaluations += 1
@@ -708,8 +786,8 @@ def main():
                 if not ok:
                     continue
                 g = f[:-3] + bytes([f[-3] ^ 0x55, f[-2], f[-1] ^ 1])
-                m1 = p.RTCMReader.parse(g, validate=0)
-                m2 = p.RTCMReader.parse(f, validate=1)
+                m1 = p.RTCMReader.parse(g, validate=0, labelmsm=lab_)
+                m2 = p.RTCMReader.parse(f, validate=1, labelmsm=lab_)
                 if full_obs(m1) != full_obs(m2):
                     em.violation("C17: static parse with validate=0 of a wrong-checksum frame differs from the parse of the right frame (identity, payload, attributes, str, repr, serialize)", {"frame": g.hex(), "right_frame": f.hex()}, {})
         em.samples = [{"options": "validate x parsed x mode product on good and wrong-checksum copies of each stream"}]
@@ -727,6 +805,21 @@ def main():
                                      {"stream": data.hex(), "cfg": [1, q, 1, True]}, {})
                         break
             em.count("deeprun." + kind)
+        # tens of thousands of consecutive errors (direct only): no hidden limit after which the iterator gives up or raises
+        for kind, n_ in (("falsesync", 12000), ("short", 12000)) + ((("falsesync", 70000), ("damaged", 20000)) if thorough else ()):
+            data, items = deep_run(tabs, rng, kind, n_)
+            want = [x[1] for x in items if x[0] == "frame"]
+            for q in (0, 1):
+                em.direct_evaluations += 1
+                try:
+                    with vlib.watchdog(120):
+                        got = [raw for raw, _ in p.RTCMReader(io.BytesIO(data), quitonerror=q, errorhandler=(lambda e: None))]
+                except BaseException as e:  # noqa
+                    got = repr(e)
+                if got != want:
+                    em.violation("C04: iteration over a stream with %d consecutive %s items in mode %d: %s" % (n_, kind, q, got if isinstance(got, str) else "%d frames returned, %d expected" % (len(got), len(want))),
+                                 {"stream_description": "good frame, %d x %s, good frame" % (n_, kind), "stream": data.hex() if len(data) < 60000 else data[:200].hex() + "...", "cfg": [1, q, 1, True]}, {})
+            em.count("verylongrun.%s.%d" % (kind, n_))
         for it in range(120 if thorough else 40):
             c = rng.random()
             if c < 0.4:
